@@ -2,7 +2,6 @@ package constraint
 
 import (
 	"net/netip"
-	"net/url"
 	"regexp"
 	"strings"
 
@@ -39,44 +38,67 @@ func (Uri) String() string {
 
 func (Uri) Validate(value bytes.Bytes) {
 	val := value.Unquote().String()
-	u, err := url.Parse(val)
-	if err != nil || !u.IsAbs() || u.Hostname() == "" || !isURI(val, u) {
+	if !isRFC3986URI(val) {
 		panic(errors.Format(errors.ErrInvalidUri, val))
 	}
 }
 
+const (
+	uriChar    = `[A-Za-z0-9\-._~!$&'()*+,;=]|%[0-9A-Fa-f]{2}` // unreserved / sub-delims / pct-encoded
+	uriNoASCII = `[^\x00-\x7F]`
+	uriPchar   = uriChar + `|[:@]|` + uriNoASCII
+)
+
+// rfc3986URI is the "URI" rule of RFC 3986, appendix A, with an authority and a host
+// which isn't empty: scheme "://" [ userinfo "@" ] host [ ":" port ] path-abempty
+// [ "?" query ] [ "#" fragment ]. The first submatch is what an IP-literal has in its
+// square brackets. The characters outside of ASCII are not in the RFC, they are
+// admitted in reg-name, path, query and fragment.
+var rfc3986URI = regexp.MustCompile(
+	`^[A-Za-z][A-Za-z0-9+.\-]*://` + // scheme
+		`(?:(?:` + uriChar + `|:)*@)?` + // userinfo
+		`(?:\[([^\]]*)\]|(?:` + uriChar + `|` + uriNoASCII + `)+)` + // IP-literal or reg-name (IPv4address is a reg-name)
+		`(?::[0-9]*)?` + // port
+		`(?:/(?:` + uriPchar + `)*)*` + // path-abempty
+		`(?:\?(?:[/?]|` + uriPchar + `)*)?` + // query
+		`(?:#(?:[/?]|` + uriPchar + `)*)?$`, // fragment
+)
+
 // ipvFuture is the IPvFuture of RFC 3986 ("v" 1*HEXDIG "." 1*( unreserved / sub-delims / ":" )).
 var ipvFuture = regexp.MustCompile(`^[vV][0-9A-Fa-f]+\.[A-Za-z0-9\-._~!$&'()*+,;=:]+$`)
 
-// isURI reports whether s, which url.Parse has parsed to u and which has a scheme
-// and a host, is free of what url.Parse lets through although RFC 3986 doesn't.
+// ipv6ZoneID is the ZoneID of RFC 6874 (1*( unreserved / pct-encoded )).
+var ipv6ZoneID = regexp.MustCompile(`^(?:[A-Za-z0-9\-._~]|%[0-9A-Fa-f]{2})+$`)
+
+// isRFC3986URI reports whether s is a URI as defined by RFC 3986 which has a scheme
+// and a host.
 //
-// url.Parse keeps the characters of the path, the query and the fragment as they
-// are, so it admits the characters which can't appear anywhere in a URI and "#"
-// inside the fragment. It cuts the userinfo at the last "@" and admits "@" inside
-// it. For a host in square brackets it only looks for the closing bracket.
-func isURI(s string, u *url.URL) bool {
-	if strings.ContainsAny(s, " \"<>\\^`{|}") || strings.Count(s, "#") > 1 {
+// url.Parse is not suitable for that: it admits strings which are not in the grammar
+// (control characters in the fragment, "%" without two hex digits in the query, ":"
+// inside the host, "@" inside the userinfo, "[" and "]" and the characters which can't
+// appear anywhere in a URI in path, query and fragment, "#" inside the fragment,
+// anything in the square brackets of the host) and it doesn't admit a pct-encoded
+// ASCII character in the host.
+func isRFC3986URI(s string) bool {
+	m := rfc3986URI.FindStringSubmatchIndex(s)
+	if m == nil {
 		return false
 	}
-
-	// u has a host, so the authority is what follows the first "//".
-	authority := s[strings.Index(s, "//")+2:]
-	if i := strings.IndexAny(authority, "/?#"); i != -1 {
-		authority = authority[:i]
+	if m[2] == -1 { // the host is a reg-name
+		return true
 	}
-	if strings.Count(authority, "@") > 1 {
+
+	// IP-literal = "[" ( IPv6address / IPvFuture ) "]", RFC 6874 adds IPv6address "%25" ZoneID.
+	ip := s[m[2]:m[3]]
+	if ipvFuture.MatchString(ip) {
+		return true
+	}
+	addr, zone, hasZone := strings.Cut(ip, "%25")
+	if hasZone && !ipv6ZoneID.MatchString(zone) {
 		return false
 	}
-
-	// IP-literal = "[" ( IPv6address / IPvFuture ) "]"
-	if strings.ContainsAny(u.Host, "[]") {
-		h := u.Hostname()
-		if a, err := netip.ParseAddr(h); (err != nil || !a.Is6()) && !ipvFuture.MatchString(h) {
-			return false
-		}
-	}
-	return true
+	a, err := netip.ParseAddr(addr)
+	return err == nil && a.Is6() && a.Zone() == ""
 }
 
 func (Uri) ASTNode() jschema.RuleASTNode {
